@@ -188,7 +188,8 @@ def cut_scope_grammar(rng):
     if rng.random() < 0.4:      # the same through a rule call
         g['rules'] = [('start', [], ('choice', [('seq', [('call', 'inner'), ('tok', 'x'), 'eof'])] + alts[1:])), ('inner', [], inner_e)]
     words = toks + ['x', 'y']
-    texts = {' '.join(rng.choice(words) for _ in range(rng.randint(1, 3))) for _ in range(14)}
+    # every text of one or two words (what is needed to commit in the inner scope and fail right after it), and some longer ones
+    texts = set(words) | {f'{a} {b}' for a in words for b in words} | {' '.join(rng.choice(words) for _ in range(3)) for _ in range(8)}
     return g, sorted(texts)
 
 
